@@ -7,6 +7,7 @@ from ..dispatch import MessageDispatcher
 from ..loadbalancer.serverset import StaticServerSetProvider
 from ..loadbalancer.zookeeper import Member
 from ..message import (
+  Deadline,
   MethodCallMessage,
   MethodReturnMessage
 )
@@ -251,8 +252,15 @@ class KafkaRouterSink(ClientMessageSink):
               'Kafka broker returned error %d' % err_code, err_code))
           sink_stack.AsyncProcessResponseMessage(err_msg)
     else:
-      # An exception occured, retry once
-      self._RefreshBrokersAndRetry(topic_name, sink_stack, req_msg)
+      timeout_event = req_msg.properties.get(Deadline.EVENT_KEY, None)
+      if timeout_event and timeout_event.Get():
+        # The call has timed out: its caller has been answered, and the first
+        # transmission may still sit in a transport's send queue (sharing this
+        # message's properties).  Don't send it again.
+        sink_stack.AsyncProcessResponseMessage(msg)
+      else:
+        # An exception occured, retry once
+        self._RefreshBrokersAndRetry(topic_name, sink_stack, req_msg)
 
 
 class KafkaSerializerSink(ClientMessageSink):
